@@ -6,7 +6,7 @@
 From Coq Require Import List String ZArith.
 Import ListNotations.
 From Anthem Require Import Syntax.Asp Model.AspTableTypes Gen.TablesAsp Model.AspPrint Model.AspParse
-  Proofs.AspRoundTrip.
+  Proofs.AspRoundTrip Proofs.AspLex Proofs.AspImage.
 Open Scope string_scope.
 
 (* Terms: whatever follows the printed term (anything but an infix operator: in a program a term
@@ -75,8 +75,42 @@ Theorem C14_text_partial :
 Proof. exact text_roundtrip_given_lex. Qed.
 Print Assumptions C14_text_partial.
 
-(* ---- the known class F7: identifiers spelled like the keyword `not` *)
+(* ---- the known class F7: identifiers spelled like the keyword `not` in front of a token that is
+   printed with a leading space (" :- ", " = ", " + ", ...); decidable: Model/AspPrint.keyword_ident *)
 Definition KeywordIdent (p : program) : Prop := keyword_ident p = true.
+
+(* Text level, for the MODEL lexer (which is tied to pest by correspondence only): outside the
+   class, if the identifiers are in the lexical classes of the grammar ([wf_program]: symbols
+   _?[a-z][A-Za-z0-9_]* , variables [A-Z][A-Za-z0-9]* ), the lexer reads the printed bytes back
+   as exactly the printed tokens ... *)
+Theorem C14_lex_render :
+  forall p : program, wf_program p -> ~ KeywordIdent p ->
+  lex (display_program p) = Some (print_program p).
+Proof. exact lex_render_not_kw. Qed.
+Print Assumptions C14_lex_render.
+
+(* ... so the text-level parser returns the tree (numerals within isize, else the real parser panics) *)
+Theorem C14_text :
+  forall p : program, wf_program p -> program_numerals_ok p = true -> ~ KeywordIdent p ->
+  parse_program_text (display_program p) = POk p.
+Proof. exact text_roundtrip_not_kw. Qed.
+Print Assumptions C14_text.
+
+(* The image of the parser is inside that class ... *)
+Theorem C14_image :
+  forall (s : string) (p : program), parse_program_text s = POk p ->
+  wf_program p /\ program_numerals_ok p = true.
+Proof. exact parse_text_image. Qed.
+Print Assumptions C14_image.
+
+(* ... hence: every accepted text, printed, is accepted again and parses to the identical tree, and
+   printing that tree again yields identical bytes -- unless the tree is in the class F7. *)
+Theorem C14_accepted_text :
+  forall (s : string) (p : program), parse_program_text s = POk p -> ~ KeywordIdent p ->
+  parse_program_text (display_program p) = POk p /\
+  forall q, parse_program_text (display_program p) = POk q -> display_program q = display_program p.
+Proof. exact text_roundtrip_image_not_kw. Qed.
+Print Assumptions C14_accepted_text.
 
 (* witness: "not:-p." is accepted, its tree is in the class, and its printed form "not :- p." is
    rejected; the lexical hypothesis of C14_text_partial is exactly what fails *)
